@@ -122,6 +122,15 @@ MUTANTS = [
     m('C03', 'grouping_drops_repeated_proj', (INF, "                if set(proj) <= set(cl):\n                    self.groups[cl].append(m)\n                    break", "                if set(proj) <= set(cl):\n                    self.groups[cl] = [g for g in self.groups[cl] if g[3] != proj] + [m]\n                    break")),
     m('C03', 'armijo_inverted', (INF, "                if nols or curr_loss - ans[0] >= 0.5*alpha*dL.dot(nu-mu):", "                if nols or curr_loss - ans[0] <= 0.5*alpha*dL.dot(nu-mu):")),
     m('C03', 'ig_average_weights_swapped', (INF, "            x = (1-a)*x + a*z\n            if callback is not None:", "            x = a*x + (1-a)*z\n            if callback is not None:")),
+    # ---- C08 ------------------------------------------------------------
+    m('C08', 'revert_F9_md_drift', (INF, "            dL = CliqueVector({ cl : dL[cl] - dL[cl].sum() / dL[cl].domain.size() for cl in dL })\n", "")),
+    m('C08', 'revert_F4_ig_zero_L', (INF, "        if L == 0: return\n    \n        theta = model.potentials\n        x = y = z", "    \n        theta = model.potentials\n        x = y = z")),
+    m('C08', 'md_theta_mu_mismatch', (INF, "        model.potentials = theta\n        model.marginals = mu\n\n        return ans[0]", "        model.potentials = omega\n        model.marginals = mu\n\n        return ans[0]")),
+    m('C08', 'rda_potentials_not_refit', (INF, "        model.marginals = w\n        model.potentials = model.mle(w) ", "        model.marginals = w\n        model.potentials = theta ")),
+    m('C08', 'ig_marginals_from_last_z', (INF, "        model.marginals = x\n        model.potentials = model.mle(x) ", "        model.marginals = z\n        model.potentials = model.mle(x) ")),
+    m('C08', 'mle_ignores_separator', (GM, "            potentials[cl] = marginals[cl].log() - marginals[cl].project(new).log()", "            potentials[cl] = marginals[cl].log() - marginals[cl].project(new[:1]).log()")),
+    m('C08', 'md_early_exit_without_marginals_total', (INF, "        mu = model.belief_propagation(theta)\n        ans = self._marginal_loss(mu)\n        if ans[0] == 0:\n            return ans[0]", "        mu = model.belief_propagation(theta)\n        ans = self._marginal_loss(mu)\n        if ans[0] == 0:\n            model.marginals = mu * 0.5\n            return ans[0]")),
+    m('C03', 'revert_F9_md_drift', (INF, "            dL = CliqueVector({ cl : dL[cl] - dL[cl].sum() / dL[cl].domain.size() for cl in dL })\n", "")),
 ]
 
 
